@@ -106,6 +106,22 @@ Section OrderedMap.
     end.
   Definition om_find (p : K -> V -> bool) (m : omap) : option (K * V) := find_loop p (om_each m).
 
+  (* Each / EachReverse with a callback that may return an error:
+       for _, k := range order { if err := fn(k, data[k]); err != nil { return err } }; return nil
+     [stop k v = true] is the callback returning an error at that entry.  The result is the list of the
+     entries the callback was called on (the failing one included) and whether the call returned an error. *)
+  Fixpoint until_loop (stop : K -> V -> bool) (kvs : list (K * V)) : list (K * V) * bool :=
+    match kvs with
+    | [] => ([], false)
+    | (k, v) :: r =>
+      if stop k v then ([(k, v)], true)
+      else let (vis, st) := until_loop stop r in ((k, v) :: vis, st)
+    end.
+  Definition om_each_until (stop : K -> V -> bool) (m : omap) : list (K * V) * bool :=
+    until_loop stop (om_each m).
+  Definition om_each_reverse_until (stop : K -> V -> bool) (m : omap) : list (K * V) * bool :=
+    until_loop stop (om_each_reverse m).
+
   (* MarshalJSON: '{' key ':' value (',' key ':' value)* '}' for k in order, value = data[k] *)
   Definition om_marshal (m : omap) : list (K * V) := om_each m.
 
@@ -231,7 +247,9 @@ Inductive bobs : Type :=
 | BGet (r : option bytes)
 | BBool (b : bool)
 | BLen (n : nat)
-| BPairs (kvs : list (bytes * bytes)).    (* Marshal, Each *)
+| BPairs (kvs : list (bytes * bytes))     (* Marshal, Each *)
+| BVisit (kvs : list (bytes * bytes)) (stopped : bool)   (* Each / EachReverse with a failing callback *)
+| BFound (r : option (bytes * bytes)).    (* Find *)
 
 (* the script language of the `omap` command; U appends a suffix to the value *)
 Inductive bcmd : Type :=
@@ -245,6 +263,11 @@ Inductive bcmd : Type :=
 | CLen
 | CEach
 | CEachReverse
+| CEachStopAt (k : bytes)                 (* Each, callback returns an error at key k *)
+| CEachReverseStopAt (k : bytes)          (* EachReverse, callback returns an error at key k *)
+| CEachStopVal (v : bytes)                (* Each, callback returns an error at the first entry whose value is v *)
+| CFindKey (k : bytes)                    (* Find, predicate: key = k *)
+| CFindVal (v : bytes)                    (* Find, predicate: value = v *)
 | CMarshal.
 
 Definition bcmd_step (m : bmap) (c : bcmd) : bmap * bobs :=
@@ -259,6 +282,14 @@ Definition bcmd_step (m : bmap) (c : bcmd) : bmap * bobs :=
   | CLen => (m, BLen (om_len _ _ m))
   | CEach => (m, BPairs (om_each _ _ beq [] m))
   | CEachReverse => (m, BPairs (om_each_reverse _ _ beq [] m))
+  | CEachStopAt k =>
+    let (vis, st) := om_each_until _ _ beq [] (fun k' _ => beq k' k) m in (m, BVisit vis st)
+  | CEachReverseStopAt k =>
+    let (vis, st) := om_each_reverse_until _ _ beq [] (fun k' _ => beq k' k) m in (m, BVisit vis st)
+  | CEachStopVal v =>
+    let (vis, st) := om_each_until _ _ beq [] (fun _ v' => beq v' v) m in (m, BVisit vis st)
+  | CFindKey k => (m, BFound (om_find _ _ beq [] (fun k' _ => beq k' k) m))
+  | CFindVal v => (m, BFound (om_find _ _ beq [] (fun _ v' => beq v' v) m))
   | CMarshal => (m, BPairs (om_marshal _ _ beq [] m))
   end.
 
